@@ -12,11 +12,16 @@ Large penalties (100, 400, 1000; scenes at scales 1, 4 and 12, so that bend coun
 taut class as well, and a directed family "corner reachable both ways round its obstacle" (avoid_lib.gen_corner_scene) keeps exactly the scenes on which
 the extracted (previous vertex, vertex) search and the extracted vertex-only search (Avoid/RefRouterVertexOnlyModel.v, taut_select) have different optima:
 there the cheapest arrival at a corner is not the one the optimal route uses, so ANode's previous-vertex component carries information (seeded change C04-4:
-PENDING lookup by vertex alone).  corpus/c04_pending_lookup.json (the seeded demonstration scene + selected scenes) is run first."""
+PENDING lookup by vertex alone).  corpus/c04_pending_lookup.json (the seeded demonstration scene + selected scenes) is run first.
+Router options (seeded change C04-6, DESIGN 9.16; checks/avoid_opts.py): the public Router members InvisibilityGrph and UseLeesAlgorithm in all four combinations
+(harness script line "F <name> <0|1>") on one-shot generic scenes and on histories - directed family "unblock" (the obstacle blocking a connector's own src-dst
+line is deleted / moved away / shrunk, blocked again, freed again, with bystander obstacles offering a detour) and move-heavy generic histories - cost = proved-optimal
+model cost after every processTransaction.  RubberBandRouting only on a first routing (by its own comments it keeps non-optimal routes over a history)."""
 import os, json, hashlib, math
 from vlib import common as C
 from checks import avoid_lib as A
 from checks import c06 as H          # history generator / sequential semantics shared with C06
+from checks import avoid_opts as AO   # public Router flags (InvisibilityGrph, UseLeesAlgorithm, RubberBandRouting) + family "unblock"
 
 PID = 'C04'
 TOL = 1e-6
@@ -82,7 +87,7 @@ def run_cases(res, exe, drv, cases, stats, samples, mism):
         stats['routes'] += 1
         stats['by_config'][c['cfg']] = stats['by_config'].get(c['cfg'], 0) + 1
         base = {'config': c['cfg'], 'segmentPenalty': c['pen'], 'shapeBufferDistance': c['buf'], 'shapes': c['polys'], 'src': s, 'dst': t,
-                'displayRoute': route, 'script': c['script'],
+                'displayRoute': route, 'script': c['script'], 'router_flags': AO.opts_json(c.get('opts')),
                 'replay': './check C04 --replay <this file>'}
         if mod == 'fail':
             res.violation(dict(base, what='the reference search failed its own certificate (model outcome SearchFail, excluded by the theorems)'),
@@ -141,20 +146,21 @@ def run_histories(res, exe, drv, hists, stats, mism):
     compared with the extracted model optimum of the scene of that moment."""
     lines = []
     for h in hists:
-        lines += H.hist_script(h['ops'], 0, h['pen'], h['trans'])
+        lines += H.hist_script(h['ops'], 0, h['pen'], h['trans'], h.get('opts'))
     runs, rc, err = A.run_harness(exe, lines)
     if rc != 0 or len(runs) != len(hists):
-        res.violation({'what': 'harness crashed on the shared-endpoint histories', 'rc': rc, 'stderr': err[-1500:]}, no_input=True)
+        res.violation({'what': 'harness crashed on the shared-endpoint / router-option histories', 'rc': rc, 'stderr': err[-1500:]}, no_input=True)
         return
     q, meta = [], []
     for h, run in zip(hists, runs):
-        snaps = H.simulate(h['ops'], h['trans'], generic=False, family='shared') or []
-        script = H.hist_script(h['ops'], 0, h['pen'], h['trans'])
+        snaps = H.simulate(h['ops'], h['trans'], generic=False, family=h.get('family', 'shared')) or []
+        script = H.hist_script(h['ops'], 0, h['pen'], h['trans'], h.get('opts'))
         if run['exc'] is not None or len(run['dumps']) != len(snaps):
-            res.violation({'what': 'assertion / exception inside libavoid on a legal history (shared-endpoint stream)', 'exception': run['exc'],
-                           'script': script, 'config': h['cfg']})
+            res.violation({'what': 'assertion / exception inside libavoid on a legal history (%s)' %
+                                   ('router-option stream' if 'opts' in h else 'shared-endpoint stream'), 'exception': run['exc'],
+                           'script': script, 'config': h['cfg'], 'router_flags': AO.opts_json(h.get('opts'))})
             continue
-        stats['shared_histories'] += 1
+        stats['option_histories' if 'opts' in h else 'shared_histories'] += 1
         ppos = [i for i, o in enumerate(h['ops']) if o[0] == 'P']
         for k, (shapes, conns) in enumerate(snaps):
             d = run['dumps'][k]
@@ -181,7 +187,9 @@ def run_histories(res, exe, drv, hists, stats, mism):
             silent = stale_known.get((id(h), c)) == k - 1        # unchanged route, nothing moved: stale iff it was stale (and classified) one step earlier
         chk, mod = ans[2 * n], A.parse_route_answer(ans[2 * n + 1])
         stats['routes'] += 1
-        stats['shared_routes'] += 1
+        stats['option_routes' if 'opts' in h else 'shared_routes'] += 1
+        if 'opts' in h and k > 0 and AO.direct_line_free({i: P for i, P in enumerate(polys)}, s, t):
+            stats['option_routes_with_free_direct_line_after_a_later_transaction'] += 1
         stats['by_config'][h['cfg']] = stats['by_config'].get(h['cfg'], 0) + 1
         if coincident:
             stats['shared_routes_with_coincident_endpoint'] += 1
@@ -189,7 +197,8 @@ def run_histories(res, exe, drv, hists, stats, mism):
                 stats['shared_routes_with_coincident_endpoint_after_later_transaction'] += 1
         base = {'config': h['cfg'], 'segmentPenalty': h['pen'], 'shapeBufferDistance': 0, 'transactions': h['trans'],
                 'history': [H.op_str(o) for o in h['ops'][:upto + 1]], 'step': k, 'connector': c, 'shapes': polys, 'src': s, 'dst': t,
-                'displayRoute': route, 'script': H.hist_script(h['ops'][:upto + 1], 0, h['pen'], h['trans']),
+                'displayRoute': route, 'script': H.hist_script(h['ops'][:upto + 1], 0, h['pen'], h['trans'], h.get('opts')),
+                'router_flags': AO.opts_json(h.get('opts')),
                 'replay': './check C04 --replay <this file>  (runs "script" on one router and compares every connector of the last dump)'}
         if mod == 'fail':
             res.violation(dict(base, what='the reference search failed its own certificate (model outcome SearchFail, excluded by the theorems)'),
@@ -290,7 +299,8 @@ def run(tier):
     rng = C.SplitMix64(C.get_seed() ^ 0xC04)
     stats = {'routes': 0, 'by_config': {}, 'nontrivial': set(), 'bends_hist': {}, 'mismatch': 0, 'no_path': 0,
              'skipped_invalid_known': 0, 'skipped_invalid_other': 0, 'shared_histories': 0, 'shared_routes': 0,
-             'shared_routes_with_coincident_endpoint': 0, 'shared_routes_with_coincident_endpoint_after_later_transaction': 0}
+             'shared_routes_with_coincident_endpoint': 0, 'shared_routes_with_coincident_endpoint_after_later_transaction': 0,
+             'option_histories': 0, 'option_routes': 0, 'option_routes_with_free_direct_line_after_a_later_transaction': 0, 'option_variants': {}}
     vbp_ok = vbp_grid(res, drv, 3 if tier == 'quick' else 4, stats)
     n_per = 45 if tier == 'quick' else 300
     samples, mism, cases = [], [], []
@@ -321,11 +331,47 @@ def run(tier):
         run_cases(res, exe, drv, cases[i:i + 300], stats, samples, mism)
     n_sh = 14 if tier == 'quick' else 120
     hists = []
+    # corpus histories under router options (corpus/c04_opt_*.json: segmentPenalty, transactions, history, router_flags) run first
+    for f in sorted(os.listdir(os.path.join(C.VERIF, 'corpus'))):
+        if f.startswith('c04_opt_') and f.endswith('.json'):
+            j = json.load(open(os.path.join(C.VERIF, 'corpus', f)))
+            hists.append({'cfg': 'corpus:' + f, 'pen': j['segmentPenalty'], 'trans': j['transactions'], 'ops': H.parse_ops(j['history']),
+                          'opts': AO.opts_from_json(j.get('router_flags')), 'family': None})
     for (name, pen, trans) in SHARED_CONFIGS:
         for k in range(n_sh):
             ops = H.gen_history(rng, trans, False, w_add=20, w_move=50, w_resize=10, w_del=8, shared=True) if k % 2 else \
                 H.gen_history(rng, trans, False, w_add=5, w_move=65, w_resize=10, w_del=10, shared=True)
             hists.append({'cfg': name, 'pen': pen, 'trans': trans, 'ops': ops})
+    # router options (DESIGN 9.16): own rng stream.  (a) one-shot generic scenes under every flag combination (+ RubberBandRouting on a first routing);
+    # (b) family "unblock" + move-heavy generic histories under every combination of InvisibilityGrph / UseLeesAlgorithm, cost vs model after every step
+    rng3 = C.SplitMix64(C.get_seed() ^ 0xC0406)
+    ocases = []
+    for (cname, opts) in AO.OPT_COMBOS[:3] + [AO.RUBBER_ONESHOT]:
+        for pen in (0, 10):
+            for _ in range(6 if tier == 'quick' else 60):
+                polys, conns = A.gen_scene(rng3, nmax=8, R=40, gap=1)
+                if conns:
+                    ocases.append({'cfg': 'opt-%s-pen%d' % (cname, pen), 'pen': pen, 'buf': 0, 'polys': polys, 'conns': conns, 'opts': opts,
+                                   'script': AO.with_opts(A.scene_script(polys, conns, 0, pen, 0, 0, 1), opts)})
+    for i in range(0, len(ocases), 300):
+        run_cases(res, exe, drv, ocases[i:i + 300], stats, samples, mism)
+    for (cname, opts) in AO.OPT_COMBOS:
+        for (pen, trans) in ((0, 1), (10, 1), (0, 0)):
+            n_un, n_gen = ((6, 2) if pen == 0 and trans else (3, 1)) if tier == 'quick' else (50, 20)
+            k = 0
+            while k < n_un:
+                ops, tags = AO.gen_unblock_history(rng3)
+                if ops is None or H.simulate(ops, trans, generic=True) is None:
+                    continue
+                k += 1
+                for t in tags:
+                    stats['option_variants'][t] = stats['option_variants'].get(t, 0) + 1
+                hists.append({'cfg': 'opt-%s-unblock-pen%d-%s' % (cname, pen, 'trans' if trans else 'notrans'), 'pen': pen, 'trans': trans, 'ops': ops,
+                              'opts': opts, 'family': None})
+            for _ in range(n_gen):
+                ops = H.gen_history(rng3, trans, False, w_add=5, w_move=65, w_resize=10, w_del=10)
+                hists.append({'cfg': 'opt-%s-moves-pen%d-%s' % (cname, pen, 'trans' if trans else 'notrans'), 'pen': pen, 'trans': trans, 'ops': ops,
+                              'opts': opts, 'family': None})
     for i in range(0, len(hists), 100):
         run_histories(res, exe, drv, hists[i:i + 100], stats, mism)
     # report at most 5 mismatches, one per family (config without scale / corpus index) first
@@ -358,6 +404,13 @@ def run(tier):
                                    'histories': stats['shared_histories'], 'routes_compared': stats['shared_routes'],
                                    'routes_with_a_coincident_endpoint': stats['shared_routes_with_coincident_endpoint'],
                                    'of_those_after_a_later_transaction': stats['shared_routes_with_coincident_endpoint_after_later_transaction']},
+        'router_option_stream': {'what': 'public Router flags InvisibilityGrph / UseLeesAlgorithm in all four combinations (RubberBandRouting only on the first '
+                                         'routing of one-shot scenes): one-shot generic scenes, and histories of the family "unblock" (the obstacle blocking a '
+                                         'connector\'s own src-dst line is deleted / moved away / shrunk; blocked again; freed again; 1-3 bystander obstacles) and '
+                                         'move-heavy generic histories; cost vs model optimum after every processTransaction',
+                                 'histories': stats['option_histories'], 'routes_compared': stats['option_routes'],
+                                 'routes_whose_direct_line_is_free_after_a_later_transaction': stats['option_routes_with_free_direct_line_after_a_later_transaction'],
+                                 'unblock_variant_histogram': stats['option_variants']},
         'invalid_routes_skipped_(C03 known finding)': stats['skipped_invalid_known'],
         'validateBendPoint_grid': {k: stats.get(k) for k in ('vbp_tuples', 'vbp_in_domain', 'vbp_first_diff')},
         'exhaustive': False})
@@ -414,12 +467,17 @@ META = {
                 'routes several connectors with exactly coincident endpoints and compares again after every later transaction that moves / adds / resizes / deletes '
                 'shapes (incremental visibility); a directed family "corner reachable both ways round its obstacle" keeps the scenes on which the extracted '
                 '(previous vertex, vertex) search and the extracted vertex-only search differ (C04_vertex_only_search_refuted: the state is necessary), i.e. where '
-                'the optimal route needs an arrival at a corner that is not the cheapest one (penalties 30, 100, 400, 1000).',
+                'the optimal route needs an arrival at a corner that is not the cheapest one (penalties 30, 100, 400, 1000). Router options: the same cost '
+                'comparison under the public flags InvisibilityGrph / UseLeesAlgorithm in all four combinations, one-shot and after every transaction of the '
+                'directed "unblock" histories (blocker of the connector\'s own src-dst line deleted / moved / shrunk / back / away again) and move-heavy histories; '
+                'RubberBandRouting on a first routing only.',
         'design_ref': 'DESIGN.md 5.4'},
     'level_note': 'partial: proof on the model. The certifying Dijkstra is proved total (cert_dijkstra_total: never Fail for in-range, non-negative, '
                   'non-parallel edges; route_plain_total / route_taut_total; SearchFail is still reported if it occurs); libavoid\'s A* and the rotational '
                   'sweep are not modelled (A* optimality is proved for an abstract best-first search only); classical facts assumed: shortest '
                   'obstacle-avoiding paths bend only at obstacle corners; for penalty > 0 optimality is claimed within the taut class only. '
+                  'Router flags: neither InvisibilityGrph nor UseLeesAlgorithm changes the visibility graph that is meant, so the model is the same; the bookkeeping they select '
+                  '(invisibility graph + checkAllBlockedEdges vs checkAllMissingEdges; rotational sweep vs pairwise checks) is exercised through cost equality only. '
                   'Trusted: Coq kernel, cpp2v, extraction, drivers, exact-rational model of binary64 on integer scenes.',
     'technique': 'Coq proof (certifying Dijkstra, exact visibility) + cost correspondence implementation vs extracted model',
 }
